@@ -26,5 +26,7 @@ Alias == [d |-> d, s |-> s, obs |-> obs, aq |-> aq, qa |-> qa, ew |-> ew, wt |->
 Served == (<>[](obs.fair)) => \A i \in 1..MAXN : []<>(obs.prog[i])
 (* the same for masters whose traffic has gaps (each of them is idle infinitely often):     *)
 (* the weaker guarantee a round-robin that only moves on an idle bus can give              *)
-ServedIfGaps == ((<>[](obs.fair)) /\ (\A i \in 1..MAXN : []<>(obs.idle[i]))) => \A i \in 1..MAXN : []<>(obs.prog[i])
+(* (per master: the OTHER masters' traffic has gaps - a master that hangs is never idle    *)
+(* again, so asking it to be idle too would make the clause vacuous for exactly that case) *)
+ServedIfGaps == \A i \in 1..MAXN : ((<>[](obs.fair)) /\ (\A j \in (1..MAXN) \ {i} : []<>(obs.idle[j]))) => []<>(obs.prog[i])
 =============================================================================
